@@ -393,7 +393,7 @@ def specs(tier: str):
         )
     )
     # (c) inter-workflow
-    shapes = [(1, 2), (2, 2), (1, 3), (2, 3)] if quick else [(1, 2), (2, 2), (1, 3), (2, 3), (3, 3), (2, 4), (3, 4)]
+    shapes = [(1, 2), (2, 2), (1, 3), (2, 3)] if quick else [(1, 2), (2, 2), (1, 3), (2, 3), (3, 3), (2, 4)]
     hi = 12
     for nr, npt in shapes:
         rs = [f"r{i}" for i in range(nr)]
